@@ -1,1 +1,427 @@
-//! E3 (controlled scheduler) — filled in with C17.
+//! E3 — controlled scheduler: stateless depth-first exploration of thread schedules on the real code.
+//!
+//! The three lazily grown caches of the subject use `verif_hooks::RwLock` in the hooked build;
+//! every acquisition reports to the installed `Scheduler` *before* it happens and every release
+//! after it happened. Exactly one controlled thread runs at a time. A scheduling decision is
+//! taken at every acquisition, at thread start and at thread end; the enabled set is computed
+//! from the tracked lock state (a thread is enabled iff its pending acquisition cannot block), so
+//! blocking is modelled exactly and "no enabled thread, not all finished" is a deadlock.
+//! Enumeration is by iterated preemption bound; each execution runs to completion; schedules are
+//! strings "t0,t1,…" of chosen thread ids, replayed exactly (divergence = machinery error).
+
+use heathcliff::verif_hooks::{self, LockOp, Scheduler};
+use std::collections::HashMap;
+use std::sync::{Arc, Condvar, Mutex};
+use std::time::{Duration, Instant};
+
+#[derive(Clone, Copy, Debug, PartialEq, Eq)]
+enum Status {
+    NotStarted,
+    Waiting,
+    Running,
+    Finished,
+}
+
+#[derive(Default, Clone, Debug)]
+struct LockState {
+    readers: Vec<usize>,
+    writer: Option<usize>,
+}
+
+#[derive(Clone, Debug)]
+pub struct Decision {
+    pub enabled: Vec<usize>,
+    pub chosen: usize,
+    /// the previously running thread is in `enabled` (choosing another one is a preemption)
+    pub running_enabled: bool,
+}
+
+struct State {
+    status: Vec<Status>,
+    pending: Vec<Option<(usize, LockOp)>>,
+    current: Option<usize>,
+    locks: HashMap<usize, LockState>,
+    prefix: Vec<usize>,
+    decisions: Vec<Decision>,
+    deadlock: bool,
+    abort: bool,
+    diverged: Option<String>,
+    lock_ops: u64,
+    observations: Vec<u64>,
+}
+
+pub struct Sched {
+    st: Mutex<State>,
+    cv: Condvar,
+    observer: Mutex<Option<Box<dyn Fn() -> u64 + Send>>>,
+}
+
+thread_local! {
+    static TID: std::cell::Cell<usize> = const { std::cell::Cell::new(usize::MAX) };
+}
+
+struct AbortExecution;
+
+impl Sched {
+    fn new(n: usize, prefix: Vec<usize>) -> Arc<Sched> {
+        Arc::new(Sched {
+            st: Mutex::new(State {
+                status: vec![Status::NotStarted; n],
+                pending: vec![None; n],
+                current: None,
+                locks: HashMap::new(),
+                prefix,
+                decisions: vec![],
+                deadlock: false,
+                abort: false,
+                diverged: None,
+                lock_ops: 0,
+                observations: vec![],
+            }),
+            cv: Condvar::new(),
+            observer: Mutex::new(None),
+        })
+    }
+
+    fn enabled_of(st: &State, t: usize) -> bool {
+        match st.status[t] {
+            Status::Finished | Status::Running => false,
+            Status::NotStarted => false,
+            Status::Waiting => match st.pending[t] {
+                None => true,
+                Some((id, op)) => {
+                    let l = st.locks.get(&id).cloned().unwrap_or_default();
+                    match op {
+                        // std's RwLock is not re-entrant for writers; readers may share
+                        LockOp::Read => l.writer.is_none(),
+                        LockOp::Write => l.writer.is_none() && l.readers.is_empty(),
+                        _ => true,
+                    }
+                }
+            },
+        }
+    }
+
+    /// Called with the state locked by a thread that has just become Waiting / Finished: pick who runs next.
+    fn decide(&self, st: &mut State, me: usize) {
+        let n = st.status.len();
+        // canonical order: the thread that was running first (if enabled), then ascending ids
+        let mut enabled: Vec<usize> = vec![];
+        let me_enabled = Self::enabled_of(st, me);
+        if me_enabled {
+            enabled.push(me);
+        }
+        for t in 0..n {
+            if t != me && Self::enabled_of(st, t) {
+                enabled.push(t);
+            }
+        }
+        if enabled.is_empty() {
+            if st.status.iter().any(|s| *s != Status::Finished) {
+                st.deadlock = true;
+                st.abort = true;
+            }
+            st.current = None;
+            self.cv.notify_all();
+            return;
+        }
+        // observation at the decision point (only when no writer holds a tracked lock)
+        if st.locks.values().all(|l| l.writer.is_none()) {
+            if let Some(obs) = self.observer.lock().unwrap().as_ref() {
+                verif_hooks::set_scheduled_thread(false);
+                let v = obs();
+                verif_hooks::set_scheduled_thread(true);
+                st.observations.push(v);
+            }
+        }
+        let i = st.decisions.len();
+        let choice = if i < st.prefix.len() {
+            let c = st.prefix[i];
+            if c >= enabled.len() {
+                st.diverged = Some(format!("decision {i}: prefix asks for choice {c} of {} enabled", enabled.len()));
+                st.abort = true;
+                st.current = None;
+                self.cv.notify_all();
+                return;
+            }
+            c
+        } else {
+            0
+        };
+        let chosen = enabled[choice];
+        st.decisions.push(Decision { enabled, chosen: choice, running_enabled: me_enabled });
+        st.current = Some(chosen);
+        self.cv.notify_all();
+    }
+
+    fn wait_turn<'a>(&'a self, mut st: std::sync::MutexGuard<'a, State>, me: usize) -> std::sync::MutexGuard<'a, State> {
+        loop {
+            if st.abort {
+                drop(st);
+                std::panic::resume_unwind(Box::new(AbortExecution));
+            }
+            if st.current == Some(me) {
+                return st;
+            }
+            let (g, _) = self.cv.wait_timeout(st, Duration::from_millis(200)).unwrap();
+            st = g;
+        }
+    }
+
+    /// thread start: register and wait to be scheduled
+    fn thread_start(&self, me: usize, n_total: usize) {
+        TID.with(|t| t.set(me));
+        let mut st = self.st.lock().unwrap();
+        st.status[me] = Status::Waiting;
+        st.pending[me] = None;
+        // the last thread to arrive takes the initial decision
+        if st.status.iter().filter(|s| **s == Status::Waiting).count() == n_total && st.current.is_none() && st.decisions.is_empty() {
+            // "me" was not running before: make the canonical order plain ascending by deciding as thread 0's predecessor
+            self.decide_initial(&mut st);
+        }
+        let mut st = self.wait_turn(st, me);
+        st.status[me] = Status::Running;
+    }
+
+    fn decide_initial(&self, st: &mut State) {
+        let n = st.status.len();
+        let enabled: Vec<usize> = (0..n).collect();
+        let choice = if !st.prefix.is_empty() { st.prefix[0].min(n - 1) } else { 0 };
+        st.decisions.push(Decision { enabled: enabled.clone(), chosen: choice, running_enabled: false });
+        st.current = Some(enabled[choice]);
+        self.cv.notify_all();
+    }
+
+    fn thread_end(&self, me: usize) {
+        let mut st = self.st.lock().unwrap();
+        st.status[me] = Status::Finished;
+        st.pending[me] = None;
+        // locks still held by a finished thread would be a leak in the subject; release them in the model
+        for l in st.locks.values_mut() {
+            l.readers.retain(|r| *r != me);
+            if l.writer == Some(me) {
+                l.writer = None;
+            }
+        }
+        if !st.abort {
+            self.decide(&mut st, me);
+        }
+    }
+}
+
+impl Scheduler for Sched {
+    fn before(&self, lock_id: usize, op: LockOp) {
+        let me = TID.with(|t| t.get());
+        if me == usize::MAX {
+            return;
+        }
+        let mut st = self.st.lock().unwrap();
+        st.lock_ops += 1;
+        st.status[me] = Status::Waiting;
+        st.pending[me] = Some((lock_id, op));
+        self.decide(&mut st, me);
+        let mut st = self.wait_turn(st, me);
+        // acquire in the model; the real acquisition follows immediately and cannot block
+        let l = st.locks.entry(lock_id).or_default();
+        match op {
+            LockOp::Read => l.readers.push(me),
+            LockOp::Write => l.writer = Some(me),
+            _ => {}
+        }
+        st.status[me] = Status::Running;
+        st.pending[me] = None;
+    }
+
+    fn after_release(&self, lock_id: usize, op: LockOp) {
+        let me = TID.with(|t| t.get());
+        if me == usize::MAX {
+            return;
+        }
+        let mut st = self.st.lock().unwrap();
+        let l = st.locks.entry(lock_id).or_default();
+        match op {
+            LockOp::ReadRelease => {
+                if let Some(p) = l.readers.iter().position(|r| *r == me) {
+                    l.readers.remove(p);
+                }
+            }
+            LockOp::WriteRelease => {
+                if l.writer == Some(me) {
+                    l.writer = None;
+                }
+            }
+            _ => {}
+        }
+    }
+}
+
+pub struct Execution<R> {
+    /// per thread: Ok(result) or Err(panic message)
+    pub results: Vec<Result<R, String>>,
+    pub decisions: Vec<Decision>,
+    pub deadlock: bool,
+    pub hang: bool,
+    pub diverged: Option<String>,
+    pub lock_ops: u64,
+    pub observations: Vec<u64>,
+}
+
+impl<R> Execution<R> {
+    pub fn schedule(&self) -> String {
+        self.decisions.iter().map(|d| d.enabled[d.chosen].to_string()).collect::<Vec<_>>().join(",")
+    }
+    pub fn choices(&self) -> Vec<usize> {
+        self.decisions.iter().map(|d| d.chosen).collect()
+    }
+    pub fn preemptions(&self) -> usize {
+        self.decisions.iter().filter(|d| d.running_enabled && d.chosen != 0).count()
+    }
+}
+
+static EXEC_LOCK: Mutex<()> = Mutex::new(());
+
+/// Runs the bodies under the controlled scheduler following `prefix` (choice indices), then default.
+pub fn run_schedule<R: Send + 'static>(
+    bodies: Vec<Box<dyn FnOnce() -> R + Send>>,
+    prefix: Vec<usize>,
+    observer: Option<Box<dyn Fn() -> u64 + Send>>,
+    horizon: Duration,
+) -> Execution<R> {
+    let _g = EXEC_LOCK.lock().unwrap_or_else(|e| e.into_inner());
+    let n = bodies.len();
+    let sched = Sched::new(n, prefix);
+    *sched.observer.lock().unwrap() = observer;
+    verif_hooks::set_scheduler(Some(sched.clone() as Arc<dyn Scheduler>));
+    let mut handles = vec![];
+    for (tid, body) in bodies.into_iter().enumerate() {
+        let s = sched.clone();
+        handles.push(
+            std::thread::Builder::new()
+                .stack_size(32 << 20)
+                .spawn(move || {
+                    verif_hooks::set_scheduled_thread(true);
+                    let r = std::panic::catch_unwind(std::panic::AssertUnwindSafe(|| {
+                        s.thread_start(tid, n);
+                        body()
+                    }));
+                    verif_hooks::set_scheduled_thread(false);
+                    let out = match r {
+                        Ok(v) => Ok(v),
+                        Err(p) => {
+                            if p.downcast_ref::<AbortExecution>().is_some() {
+                                Err("execution aborted (deadlock or divergence)".to_string())
+                            } else {
+                                Err(crate::engine::guard(|| std::panic::resume_unwind(p)).err().unwrap_or_default())
+                            }
+                        }
+                    };
+                    s.thread_end(tid);
+                    out
+                })
+                .expect("spawn"),
+        );
+    }
+    let t0 = Instant::now();
+    let mut hang = false;
+    loop {
+        if handles.iter().all(|h| h.is_finished()) {
+            break;
+        }
+        if t0.elapsed() > horizon {
+            hang = true;
+            let mut st = sched.st.lock().unwrap();
+            st.abort = true;
+            sched.cv.notify_all();
+            drop(st);
+            // give aborted threads a moment; threads stuck inside the subject are leaked
+            std::thread::sleep(Duration::from_millis(300));
+            break;
+        }
+        std::thread::sleep(Duration::from_micros(50));
+    }
+    let mut results = vec![];
+    for h in handles {
+        if h.is_finished() {
+            results.push(h.join().unwrap_or_else(|_| Err("thread panicked outside the body".into())));
+        } else {
+            results.push(Err("thread did not reach a scheduling point or finish within the horizon".into()));
+        }
+    }
+    verif_hooks::set_scheduler(None);
+    let st = sched.st.lock().unwrap();
+    Execution {
+        results,
+        decisions: st.decisions.clone(),
+        deadlock: st.deadlock,
+        hang,
+        diverged: st.diverged.clone(),
+        lock_ops: st.lock_ops,
+        observations: st.observations.clone(),
+    }
+}
+
+pub struct ExploreStats {
+    pub executions: u64,
+    pub max_decisions: usize,
+    pub max_preemptions: usize,
+    pub bound_completed: Option<usize>,
+    pub capped: bool,
+}
+
+/// Depth-first enumeration of all schedules with at most `bound` preemptions (None = unbounded).
+/// `check` is called for every complete execution; return false to stop early.
+pub fn explore<R: Send + 'static>(
+    make: &dyn Fn() -> (Vec<Box<dyn FnOnce() -> R + Send>>, Option<Box<dyn Fn() -> u64 + Send>>),
+    bound: Option<usize>,
+    max_executions: u64,
+    deadline: Instant,
+    check: &mut dyn FnMut(&Execution<R>) -> bool,
+) -> ExploreStats {
+    let mut stack: Vec<Vec<usize>> = vec![vec![]];
+    let mut stats = ExploreStats { executions: 0, max_decisions: 0, max_preemptions: 0, bound_completed: None, capped: false };
+    while let Some(prefix) = stack.pop() {
+        if stats.executions >= max_executions || Instant::now() > deadline {
+            stats.capped = true;
+            return stats;
+        }
+        let (bodies, obs) = make();
+        let ex = run_schedule(bodies, prefix.clone(), obs, Duration::from_secs(20));
+        stats.executions += 1;
+        stats.max_decisions = stats.max_decisions.max(ex.decisions.len());
+        stats.max_preemptions = stats.max_preemptions.max(ex.preemptions());
+        let go_on = check(&ex);
+        if !go_on {
+            stats.capped = true;
+            return stats;
+        }
+        if ex.diverged.is_some() || ex.hang {
+            continue;
+        }
+        // children: alternatives at decision points after the prefix
+        let choices = ex.choices();
+        let mut pre = 0usize;
+        let mut pre_before: Vec<usize> = Vec::with_capacity(ex.decisions.len());
+        for d in &ex.decisions {
+            pre_before.push(pre);
+            if d.running_enabled && d.chosen != 0 {
+                pre += 1;
+            }
+        }
+        for i in (prefix.len()..ex.decisions.len()).rev() {
+            let d = &ex.decisions[i];
+            for alt in (1..d.enabled.len()).rev() {
+                let cost = pre_before[i] + if d.running_enabled { 1 } else { 0 };
+                if let Some(b) = bound {
+                    if cost > b {
+                        continue;
+                    }
+                }
+                let mut p = choices[..i].to_vec();
+                p.push(alt);
+                stack.push(p);
+            }
+        }
+    }
+    stats.bound_completed = bound.or(Some(usize::MAX));
+    stats
+}
